@@ -1103,12 +1103,17 @@ class DestHandler:
         ):
             file_delivery_complete = True
         else:
-            crc32 = self.user.vfs.calculate_checksum(
-                self._params.checksum_type,
-                self._params.fp.file_name,
-                self._params.fp.progress,
-            )
-            if crc32 == self._params.fp.crc32:
+            try:
+                crc32 = self.user.vfs.calculate_checksum(
+                    self._params.checksum_type,
+                    self._params.fp.file_name,
+                    self._params.fp.progress,
+                )
+            except OSError:
+                # The destination file can not be read, e.g. because it could not be created and
+                # the Filestore Rejection fault was ignored: there is nothing which matches.
+                crc32 = None
+            if crc32 is not None and crc32 == self._params.fp.crc32:
                 file_delivery_complete = True
             else:
                 self._declare_fault(ConditionCode.FILE_CHECKSUM_FAILURE)
